@@ -566,6 +566,43 @@ def joinWith (d : Char) : List Str → Str
 def renderDelimited (d : Char) (names : List Str) (rows : List (List Str)) : List Str :=
   joinWith d names :: rows.map (joinWith d)
 
+/-- `d.join(parts)` for a delimiter string of any length -/
+def joinStr (d : Str) : List Str → Str
+  | [] => []
+  | [x] => x
+  | x :: y :: rest => x ++ d ++ joinStr d (y :: rest)
+
+/-- a delimited table with the text around it: lines before the heading, header names, rows of cells
+    (cells as they are written, padding included), lines after the data -/
+structure DelimTable where
+  junk : List Str
+  names : List Str
+  rows : List (List Str)
+  footer : List Str
+
+/-- header and every row joined with the delimiter string `d` -/
+def renderDelimTable (d : Str) (t : DelimTable) : List Str :=
+  t.junk ++ joinStr d t.names :: (t.rows.map (joinStr d) ++ t.footer)
+
+/-- a white-space separated line: leading white space, the cells `gap` apart, trailing white space -/
+structure WsLine where
+  lead : Str
+  gap : Str
+  cells : List Str
+  trail : Str
+
+def WsLine.render (l : WsLine) : Str := l.lead ++ joinStr l.gap l.cells ++ l.trail
+
+/-- a white-space delimited table with the text around it -/
+structure WsTable where
+  junk : List Str
+  head : WsLine
+  rows : List WsLine
+  footer : List Str
+
+def renderWsTable (t : WsTable) : List Str :=
+  t.junk ++ t.head.render :: (t.rows.map (·.render) ++ t.footer)
+
 /-- an INI document item -/
 inductive IniItem where
   | sec (padL : Nat) (name : Str) (padR : Nat)
